@@ -144,6 +144,18 @@ PROPS["C10"] = dict(
     assumptions=["ReadIndex contract: a SyncRead started when a entries are committed is served from a state with >= a applied entries", "log indices strictly increase"],
 )
 
+PROPS["C06"] = dict(
+    title="Replication log stream is exact: consecutive applied entries, no gap or repeat",
+    design_ref="DESIGN.md section 7 (C06)",
+    run_files=["Run/C06Run.v"],
+    engines=[dict(cmd=["c06"], corr="Model.LogReader.{simple_query,cached_query,cget,cput,fix_size,replicate} <-> logreader.Simple/Cached.QueryRaftLog, cache.get/put, fixSize, regattaserver.LogServer.Replicate")],
+    level_text="Theorems for every library cut oracle: the uncached reader's answer is exact (empty at applied+1, use-snapshot at/below the compaction point, otherwise a non-empty consecutive prefix from the requested index), the size cut keeps a non-empty prefix, and for any reader service with exact single answers the Replicate loop streams exactly the entries F..applied in non-empty batches followed by the up-to-date message. PARTIAL: that the cached reader meets the same contract (cache transparency) is not yet a theorem; it is compared case by case (cached vs simple vs model, cache sizes 1-12, prepend/append hits, compaction) by the correspondence run.",
+    level_note="Trusts: Coq kernel; dragonboat's reader contract (non-empty prefix of the range, ErrCompacted below the marker) as modelled and as implemented by the harness's fake reader; stale-cache window after compaction modelled as atomic invalidation; correspondence run.",
+    technique="Coq proof (consecutive-index lemmas over filtered logs, fuel induction over the Replicate loop for an abstract exact reader) + differential correspondence check of logreader and LogServer against the model on a contract-faithful fake log",
+    trusted=["Model/LogReader.v hand-written model of storage/logreader and LogServer.Replicate; dragonboat ReadonlyLogReader by contract"],
+    assumptions=["the end of the requested range is applied+1 and applied only grows (as the server computes it)", "log entries have consecutive indices after the compaction marker"],
+)
+
 # Properties not (yet) claimed, each with a reason; kept current as checks are added.
 _PENDING = "check not built yet in this development; will be claimed once its model, theorems and correspondence harness exist"
 NOT_APPLICABLE = [dict(property_id="C%02d" % i, reason=_PENDING) for i in range(1, 20) if "C%02d" % i not in PROPS]
